@@ -498,7 +498,12 @@ pub fn all_suites(thorough: bool) -> Vec<Suite> {
 }
 
 pub fn find_suite(name: &str, thorough: bool) -> Option<Suite> {
-    all_suites(thorough).into_iter().find(|s| s.name == name)
+    all_suites(thorough)
+        .into_iter()
+        .chain(crash_suites(thorough))
+        .chain(partition_suites(thorough))
+        .chain(layout_suites(thorough))
+        .find(|s| s.name == name)
 }
 
 // ------------------------------------------------------------------ histories for the crash engine
@@ -630,6 +635,12 @@ pub fn crash_suites(thorough: bool) -> Vec<Suite> {
     v.push(crash_suite("crash-ttl-reuse-v2", disk(2, true, true), crash_tables(2), crash_ttl_reuse_ops(), d(6, 8)));
     // multi-block generations that recovery itself has to retire (stale duplicate / expired winner)
     v.push(crash_suite("crash-ttl-big-v3", disk(3, true, true), std_tables(), crash_ttl_big_ops(), d(4, 6)));
+    // extents that end exactly on the last block of the device, retired by recovery itself
+    {
+        let mut c = small_disk(3, 5);
+        c.ttl = true;
+        v.push(crash_suite("crash-end5-ttl-v3", c, std_tables(), crash_end_ops(), d(4, 6)));
+    }
     // a device that fills up: the out-of-space path retires old extents before the pending write fits
     v.push(crash_suite("crash-full4-v3", small_disk(3, 4), std_tables(), crash_full_ops(), d(5, 7)));
     let mut u = disk(3, true, false);
@@ -640,6 +651,11 @@ pub fn crash_suites(thorough: bool) -> Vec<Suite> {
 
 pub fn crash_ttl_big_ops() -> Vec<Op> {
     vec![ins(0, V_BIG2), ins_ttl(0, V_BIG3, 1, 0), ins(0, V_X), Op::Flush, Op::Advance(3)]
+}
+
+/// A three-block filler, then a two-block TTL generation that lands on the last two blocks.
+pub fn crash_end_ops() -> Vec<Op> {
+    vec![ins(1, V_BIG3), ins_ttl(0, V_BIG2, 1, 0), Op::Flush, Op::Advance(3)]
 }
 
 /// Overwrite chains on a device the newest generation only fits on after a retirement.
